@@ -146,7 +146,7 @@ def check_case(ctx, case):
                     raise Violation('%s: %s%s = %r vs %r, more than the rounding of the requested precision (tol %.3g)' % (what, key, list(idx), float(b64[idx]), float(a64[idx]), float(np.broadcast_to(t, a64.shape)[idx])), case)
     single_kernel_nontrivial = (not uses_kernels) and traces.shape[1] >= 8 and any(t > 1 for _, t in case['runs'])
     labels = ['kind:' + kind, 'prec:' + precision, 'tdtype:' + str(traces.dtype), 'regime:' + ('exact' if exact else 'rounded'), 'batches:%d' % nb,
-              'nclasses:%d' % len(case['partitions']) if kind != 'ttest' else 'nclasses:n/a', 'samples:%s' % ('>=32' if traces.shape[1] >= 32 else '<32')]
+              'nclasses:%d' % len(case['partitions']) if kind != 'ttest' else 'nclasses:n/a', 'samples:%s' % ('>4096' if traces.shape[1] > 4096 else '>=32' if traces.shape[1] >= 32 else '<32')]
     if both:
         labels.append('both_kernels')
     if not exact and np.dtype(traces.dtype).itemsize < np.dtype(precision).itemsize:
@@ -164,7 +164,12 @@ def replay(ctx, case):
 def cases(draw, kind, precision, tdtypes, big=False):
     seed64 = draw(st.integers(0, 2 ** 63))
     g = np.random.Generator(np.random.PCG64(seed64))
-    if big:
+    if big == 'long':
+        # very long traces (sample counts around and above powers of two), few of them
+        n = draw(st.integers(8, 40))
+        s = draw(st.sampled_from([1025, 4096, 4097, 5000, 8193])) + draw(st.integers(0, 2))
+        W = 1 if kind in ('tbuild', 'ttest') else draw(st.integers(1, 2))
+    elif big:
         n = draw(st.integers(150, 400))
         s = draw(st.sampled_from([16, 32, 64]))
         W = 1 if kind in ('tbuild', 'ttest') else draw(st.integers(1, 2))
@@ -207,7 +212,9 @@ def cases(draw, kind, precision, tdtypes, big=False):
         runs = [[list(sq), int(g.choice(THREADS))] for sq in seqs]
     else:
         runs = [[[], t] for t in ([2, 16] if not big else [2, 8, 16, 16])]
-    if big:
+    if big == 'long':
+        runs = runs[:5]
+    elif big:
         runs = runs[:6] + [[r[0], 16] for r in runs[:3]]
     ddt = draw(st.sampled_from([d for d in gen.CLASS_DTYPES if int(lab.max()) <= np.iinfo(d).max]))
     case = {'kind': 'kernels', 'dist': kind, 'precision': precision, 'partitions': parts, 'traces': tr, 'data': lab.astype(ddt), 'cuts': cuts, 'runs': runs}
@@ -244,6 +251,9 @@ def units(tier):
     for precision, tdts in [('float64', ['int16', 'float32']), ('float32', ['uint8', 'float32'])]:
         us.append({'name': 'big-arrays-%s' % precision, 'fn': 'unit_generated', 'threads': 16, 'cost': 4,
                    'kwargs': {'kinds': ['tbuild', 'snr', 'mia', 'ttest'], 'precision': precision, 'tdtypes': tdts, 'n': 10 if q else 100, 'big': True}})
+    for precision, tdts in [('float64', ['int16', 'float32']), ('float32', ['uint8', 'float32'])]:
+        us.append({'name': 'long-traces-%s' % precision, 'fn': 'unit_generated', 'threads': 16, 'cost': 2,
+                   'kwargs': {'kinds': ['anova', 'snr', 'mia', 'ttest'], 'precision': precision, 'tdtypes': tdts, 'n': 6 if q else 60, 'big': 'long'}})
     return us
 
 
